@@ -175,7 +175,9 @@ func codecSamples() []codecSample {
 		{"pv3", func() []errorCause {
 			return []errorCause{&errorCauseProtocolViolation{errorCauseHeader: errorCauseHeader{code: protocolViolation}, additionalInformation: bytesN(3, 1)}}
 		}, []wTLV{{13, bytesN(3, 1)}}},
-		{"user5", func() []errorCause { return []errorCause{&errorCauseUserInitiatedAbort{upperLayerAbortReason: bytesN(5, 2)}} }, []wTLV{{12, bytesN(5, 2)}}},
+		{"user5", func() []errorCause {
+			return []errorCause{&errorCauseUserInitiatedAbort{upperLayerAbortReason: bytesN(5, 2)}}
+		}, []wTLV{{12, bytesN(5, 2)}}},
 		{"unrec8+pv0", func() []errorCause {
 			return []errorCause{&errorCauseUnrecognizedChunkType{unrecognizedChunk: bytesN(8, 5)}, &errorCauseProtocolViolation{errorCauseHeader: errorCauseHeader{code: protocolViolation}}}
 		}, []wTLV{{6, bytesN(8, 5)}, {13, []byte{}}}},
